@@ -22,6 +22,7 @@ type PropSpec struct {
 	Undecided  []string
 	Assumes    []string
 	Bounded    []string // names of bounded stand-ins (thorough tier), see bounded.go
+	BoundedQuick []string // cheap bounded stand-ins that also run in the quick tier (budget quick)
 	Sweep      bool
 	AllFuncs   []string // "<pkg> <classes...>": every function of the package that has a contract
 	Generate   []string // "c13 <worker> <HeaderConst>": pinned posts derived mechanically from the code's header constants
@@ -69,6 +70,9 @@ func loadProp(id string) (*PropSpec, error) {
 			continue
 		case "bounded":
 			ps.Bounded = append(ps.Bounded, rest)
+			continue
+		case "bounded-quick":
+			ps.BoundedQuick = append(ps.BoundedQuick, rest)
 			continue
 		case "meta":
 			ps.Meta = append(ps.Meta, rest)
@@ -281,9 +285,20 @@ func runCheck(e *Engine, id, tier string, dir string) (*checkResult, error) {
 		return nil, err
 	}
 	// bounded stand-ins (thorough tier): real functions against the independent reference implementations
-	if tier == "thorough" {
+	{
 		seed, _ := strconv.Atoi(envOr("VERIF_SEED", "0"))
-		for _, b := range ps.Bounded {
+		list := ps.BoundedQuick
+		budget := "quick"
+		if tier == "thorough" {
+			list = append(append([]string{}, ps.Bounded...), ps.BoundedQuick...)
+			budget = "thorough"
+		}
+		seenB := map[string]bool{}
+		for _, b := range list {
+			if seenB[b] {
+				continue
+			}
+			seenB[b] = true
 			i := strings.Index(b, ":")
 			if i < 0 {
 				continue
@@ -293,8 +308,8 @@ func runCheck(e *Engine, id, tier string, dir string) (*checkResult, error) {
 			for _, c := range strings.Split(b[i+1:], ",") {
 				checks = append(checks, strings.TrimSpace(c))
 			}
-			resp, err := runHarness(pkg, harnessReq{Checks: checks, Seed: int64(seed), Budget: "thorough"}, 3*time.Hour)
-			br := boundedResult{name: b, bound: "harness " + pkg + " budget=thorough (sizes and families listed in /verif/harness/" + pkg + "/verif_harness_test.go)"}
+			resp, err := runHarness(pkg, harnessReq{Checks: checks, Seed: int64(seed), Budget: budget}, 3*time.Hour)
+			br := boundedResult{name: b, bound: "harness " + pkg + " budget=" + budget + " (sizes and families listed in /verif/harness/" + pkg + "/verif_harness_test.go)"}
 			if err != nil {
 				br.failed = 1
 				br.detail = err.Error()
